@@ -88,6 +88,11 @@ func exploreFields(rt reflect.Type, tagName string, sorter KeySortMode) []Struct
 
 				// Record found field and index sequence.
 				if name != "" || !sf.Anonymous || ft.Kind() != reflect.Struct {
+					if sf.PkgPath != "" {
+						// An embedded field of unexported struct type that carries its own
+						// name is an unexported field like any other: it cannot be set.
+						continue
+					}
 					tagged := name != ""
 					if name == "" {
 						name = downcaseFirstLetter(sf.Name)
